@@ -5,6 +5,7 @@ R14.1  the discriminated path is exact: a present discriminator with a mapped va
        `property in data` (a null discriminator is a value, not absence)
 R14.2  first-success loops are lossless only if extra keys are rejected                      [finding on the pinned tree]
 R14.3  Union[...] is rendered in spec order with order-preserving de-duplication
+R14.9  every loop of _structure_union that tries variants iterates them in the order of get_args(union) (no sorted / reversed / set view)
 R14.8  DiscriminatorEnumCollector consults the discriminator mapping on every path to 'skip this variant' (must-pass-through)
 R14.7  named union / array members are expanded to their underlying type only when they are primitive aliases (decision evaluated over the `type` domain)
 R14.6  no function of the converter memoises (functools cache / table keyed by the type) data derived from the member order of a typing construct
@@ -247,6 +248,7 @@ def run(repo: Repo, rep: Report, tier: str) -> None:
     _mapping_entries_rule(repo, rep)
     rule_underlying_only_for_primitives(repo, rep, "R14.7")
     rule_mapping_fallback(repo, rep, "R14.8")
+    rule_declared_order(repo, rep, "R14.9")
 
     # ---------------------------------------------------------------- R14.4 alias keeps discriminator metadata
     ra = repo.func("core.writers.python_construct_renderer:PythonConstructRenderer.render_alias")
@@ -460,3 +462,53 @@ def rule_mapping_fallback(repo: Repo, rep: Report, rule: str = "R14.8") -> None:
                               "discriminator property refers to a named string schema without enum. The unified enum then lacks the value the mapping routes to this "
                               "variant, and a conforming payload fails with 'Failed to deserialize … (discriminator …)'", fn.loc(skips[0].ast))
     rep.require(done, f"{rule}: the per-variant value list / mapping table of DiscriminatorEnumCollector was not found (anchor)")
+
+
+# ------------------------------------------------------------------------------------------------ R14.9 variants are tried in declared order
+def rule_declared_order(repo: Repo, rep: Report, rule: str = "R14.9") -> None:
+    """Without a usable discriminator the variant of a union is "the first one that decodes, in declared order".  In `_structure_union`
+    the order of `get_args(union)` - and of the lists filled from it by one `append` per member - is therefore the order of every loop
+    that tries variants: none of them iterates a `sorted(...)` / `reversed(...)` / `set(...)` view, and none of those lists is sorted or
+    reversed in place."""
+    from sa.flatten import flatten
+
+    su0 = repo.func("core.cattrs_converter:_structure_union")
+    su = flatten(su0)
+    order_vars: Set[str] = set()
+    for st in own_nodes(su.node):
+        if isinstance(st, ast.Assign) and isinstance(st.targets[0], ast.Name) and any(isinstance(c, ast.Call) and (dotted(c.func) or "").split(".")[-1] == "get_args" for c in ast.walk(st.value)):
+            order_vars.add(st.targets[0].id)
+    if not order_vars:
+        raise AnalysisError(f"{rule}: no `<args> = get_args(<union>)` found in _structure_union (anchor)")
+    changed = True
+    while changed:
+        changed = False
+        for lp in [x for x in own_nodes(su.node) if isinstance(x, ast.For)]:
+            roots = {n for n in names_in(lp.iter)}
+            if not (roots & order_vars):
+                continue
+            for c in calls_in(lp):
+                if isinstance(c.func, ast.Attribute) and c.func.attr == "append" and isinstance(c.func.value, ast.Name) and c.func.value.id not in order_vars:
+                    order_vars.add(c.func.value.id)
+                    changed = True
+    n = 0
+    for lp in [x for x in own_nodes(su.node) if isinstance(x, (ast.For, ast.comprehension))]:
+        it = lp.iter
+        if not ({n_ for n_ in names_in(it)} & order_vars):
+            continue
+        n += 1
+        reorder = [c for c in ast.walk(it) if isinstance(c, ast.Call) and (dotted(c.func) in ("sorted", "reversed", "set", "frozenset") or (
+            isinstance(c.func, ast.Attribute) and c.func.attr in ("sort", "reverse")))]
+        neg_slice = [s for s in ast.walk(it) if isinstance(s, ast.Slice) and s.step is not None]
+        sub = f"{su0.module.relpath}:_structure_union loop over `{norm(it)[:40]}`"
+        if reorder or neg_slice:
+            rep.violation(rule, sub, f"{su0.fq}|variants-reordered|{dotted(reorder[0].func) if reorder else 'slice'}",
+                          f"the variants are tried in the order of `{norm(it)[:60]}`, not in the order the union declares them: for a document that several "
+                          "variants accept, a different variant than the first declared one is chosen (and its extra keys are dropped)", su0.loc(it))
+        else:
+            rep.ok(rule, sub, "iterates the members in the order of get_args(union)", su0.loc(it))
+    for c in calls_in(su.node):
+        if isinstance(c.func, ast.Attribute) and c.func.attr in ("sort", "reverse") and isinstance(c.func.value, ast.Name) and c.func.value.id in order_vars:
+            rep.violation(rule, f"{su0.module.relpath}:_structure_union `{norm(c)[:40]}`", f"{su0.fq}|variants-reordered|{c.func.attr}",
+                          f"`{norm(c)[:60]}` re-orders the variant list in place: variants are no longer tried in declared order", su0.loc(c))
+    rep.require(n >= 3, f"{rule}: only {n} loops over the union members found in _structure_union (floor 3)")
